@@ -35,7 +35,8 @@ class LangLex:
         contents = self.I.call(ctx, L, 'Contents::from_str', [ValRef(StrV(b))])
         us = Agg('UniqueSource', [None] * len(self.S['UniqueSource']))
         us.fields[self.fidx('UniqueSource', 'contents')] = Agg('CellLike', [contents])
-        us.fields[self.fidx('UniqueSource', 'file_id')] = Agg('FileId', [Agg('FilePath', []), BV(0, 64)])
+        from ..models import py_str
+        us.fields[self.fidx('UniqueSource', 'file_id')] = Agg('FileId', [Agg('FilePath', [py_str('/verif.vhd')]), BV(7, 64)])
         return Agg('Source', [us]), contents
 
     def make_tokenizer(self, ctx, symbols, source, contents, last_kind=None):
